@@ -56,4 +56,15 @@ theorem mul_forms (k : ℕ) (P : E) :
     ∀ f ∈ (Gen.OpForms.mulForms : List (String × (ℕ → E → E))), f.2 k P = k • P :=
   fun f hf => Formulas.OpForms.mulForms_correct f hf k P
 
+/-- **multi-scalar multiplication is the sum of the products**: `Element::vartime_multiscalar_mul` (body regenerated on every
+run) returns Σ kᵢ • Pᵢ over the pairs its `zip` forms, and every `impl Sum<…> for Element` the group sum of what its iterator
+yields (the empty sum is the identity) -/
+theorem msm_forms (ks : List ℕ) (Ps : List E) :
+    (∀ f ∈ (Gen.OpForms.msmForms : List (String × (List ℕ → List E → E))),
+      f.2 ks Ps = (List.zipWith (fun k P => k • P) ks Ps).sum) ∧
+    (∀ f ∈ (Gen.OpForms.gsumForms : List (String × (List E → E))), f.2 Ps = Ps.sum) := by
+  refine ⟨fun f hf => ?_, fun f hf => Formulas.OpForms.gsumForms_correct f hf Ps⟩
+  rw [Formulas.OpForms.msmForms_correct f hf, List.map_zip_eq_zipWith]
+  rfl
+
 end C05.Translated
